@@ -47,7 +47,7 @@ ASSUMPTIONS = [
 ]
 TIERS = {
     "quick": {"shards": 16, "cases": 40, "timeout": 600},
-    "thorough": {"shards": 16, "cases": 1200, "timeout": 7200},
+    "thorough": {"shards": 16, "cases": 2400, "timeout": 7200},
 }
 FLOORS = {
     "quick": {
